@@ -152,6 +152,9 @@ func Run(sp RunSpec) ([]Event, error) {
 				e.Ret = MonoNow()
 				e.ID, e.Bytes, e.Err = Classify(sp.BundleDir, b, err)
 				rec(e)
+				if sp.ReadGapUS > 0 {
+					time.Sleep(time.Duration(sp.ReadGapUS) * time.Microsecond)
+				}
 			}
 		}(client)
 	}
